@@ -235,3 +235,12 @@ func (k *checker) matrixNear(sig string, r, c int, at func(i, j int) float64, wa
 		}
 	}
 }
+
+// basicTri hides every fast path of a triangular operand.
+type basicTri struct{ t *mat.TriDense }
+
+func (b basicTri) Dims() (int, int)             { return b.t.Dims() }
+func (b basicTri) At(i, j int) float64          { return b.t.At(i, j) }
+func (b basicTri) T() mat.Matrix                { return mat.Transpose{Matrix: b} }
+func (b basicTri) Triangle() (int, mat.TriKind) { return b.t.Triangle() }
+func (b basicTri) TTri() mat.Triangular         { return mat.TransposeTri{Triangular: b} }
